@@ -342,14 +342,115 @@ def rule_constructs(ctx: Ctx, out: Collector) -> None:
             ok_attrs = bool(dest_ok and s_ok and m_ok)
     if not ok_attrs:
         problems.append('the destination node does not carry start_node=<declared start>, max_iterations=<declared bound>')
-    if '_recurrent_sub_graphs' not in rsrc and 'recurrent' not in rsrc.lower().replace('recurrentsubgraphmark', ''):
-        problems.append('the (start, dest) pair is not recorded for validation')
+    recs = [st for st in rc.body if isinstance(st, ast.Expr) and isinstance(st.value, ast.Call)
+            and isinstance(st.value.func, ast.Attribute) and st.value.func.attr in ('append', 'add')
+            and 'recurrent' in unparse(st.value.func.value).lower()]
+    if not recs:
+        nested = [x for x in ast.walk(rc) if isinstance(x, ast.Call) and isinstance(x.func, ast.Attribute)
+                  and x.func.attr in ('append', 'add') and 'recurrent' in unparse(x.func.value).lower()]
+        if nested:
+            problems.append('the (start, dest) pair is recorded for validation only conditionally: under some traversal orders the '
+                            'recurrent destination / start node is never validated')
+        else:
+            problems.append('the (start, dest) pair is not recorded for validation')
+    else:
+        txt = unparse(recs[0].value)
+        if f'{mark_var}.start_node' not in txt or f'{mark_var}.dest_node' not in txt:
+            problems.append('the recorded pair is not (declared start, declared dest)')
     cons = base + '::RecurrentSubGraphMark branch records start_node / max_iterations on the destination'
     if not problems:
         out.ok('RC-5', cons, ctx.p.loc(trav, rc), 'dest node attrs start_node, max_iterations from the mark; pair recorded for validation')
     else:
         out.bad('RC-5', cons, ctx.p.loc(trav, rc), 'the builder does not translate a RecurrentSubGraph declaration faithfully: ' + '; '.join(problems),
-                props={'C11', 'C15'})
+                props={'C11', 'C15', 'C16'})
+
+
+def rule_builder_effects(ctx: Ctx, out: Collector) -> None:
+    """BD-5: building writes only to the builder's own state and to objects it created: nothing is stored on
+    node classes, marks, modules or other caller-owned objects (the result of build_dag must not depend on what
+    was built before, nor on traversal order).  BD-7: graph / registry updates inside a mark branch are
+    unconditional."""
+    b = _builder_class(ctx)
+    from ..effects import MUTATORS
+    n = 0
+    bad = []
+    for m in b.methods.values():
+        env = FuncEnv.of(ctx.p, m)
+        fresh = set()
+        for name, defs in env.local_defs().items():
+            if defs and all(d[0] in ('assign', 'annassign') and isinstance(d[1] if d[0] == 'assign' else d[2],
+                            (ast.Call, ast.List, ast.Dict, ast.Set, ast.ListComp, ast.DictComp, ast.SetComp, ast.Tuple, ast.Constant,
+                             ast.JoinedStr, ast.BinOp, ast.Compare, ast.BoolOp)) for d in defs):
+                fresh.add(name)
+
+        def root_of(e):
+            while isinstance(e, (ast.Attribute, ast.Subscript)):
+                e = e.value
+            return e
+
+        units = [m] + list(m.nested.values())
+        for u in units:
+            for node in FuncEnv.of(ctx.p, u).own_nodes():
+                target = None
+                how = ''
+                if isinstance(node, (ast.Assign, ast.AugAssign, ast.AnnAssign)):
+                    tgts = node.targets if isinstance(node, ast.Assign) else [node.target]
+                    for t in tgts:
+                        if isinstance(t, (ast.Attribute, ast.Subscript)):
+                            target, how = t.value, 'store'
+                elif isinstance(node, ast.Call):
+                    d = (dotted(node.func) or '')
+                    if d.split('.')[-1] in ('setattr', 'delattr') and node.args:
+                        target, how = node.args[0], d
+                    elif isinstance(node.func, ast.Attribute) and node.func.attr in MUTATORS | {'update', '__setattr__'} \
+                            and not isinstance(node.func.value, ast.Call):
+                        # annotations / dicts of foreign objects: X.__annotations__.update(...), X.__dict__[...]
+                        target, how = node.func.value, f'.{node.func.attr}()'
+                if target is None:
+                    continue
+                n += 1
+                r = root_of(target)
+                if isinstance(r, ast.Name) and (r.id == 'self' or r.id in fresh):
+                    continue
+                if isinstance(r, ast.Name):
+                    defs = env.local_defs().get(r.id) or FuncEnv.of(ctx.p, u).local_defs().get(r.id, [])
+                    is_param = any(d[0] in ('param', 'iter', 'unpack') for d in defs)
+                    if is_param or not defs:
+                        bad.append((u, node, how, unparse(target)))
+                elif isinstance(r, ast.Call) and (dotted(r.func) or '').endswith('globals'):
+                    bad.append((u, node, how, unparse(target)))
+    cons = f'{b.module.name}::{b.name}::writes only to the builder\'s own state'
+    if not bad:
+        out.ok('BD-5', cons, ctx.p.loc(b.module, b.node), f'{n} write sites, all rooted in self or in objects created by the builder')
+    else:
+        u, node, how, tgt = bad[0]
+        out.bad('BD-5', ctx.construct(u, node) + ' [builder writes to a caller-owned object]', ctx.p.loc(u, node),
+                f'while building, the builder writes to {tgt} ({how}), an object that outlives this build (node class, mark, module): the '
+                f'result of build_dag now depends on which classes were analysed before and in which order (inherited / stale state)',
+                props={'C15', 'C16'})
+    # BD-7
+    trav = _traverse_function(ctx)
+    loop, mark_var, kw_var, br = _branches(ctx, trav)
+    for name, node in sorted(br.items()):
+        conditional = []
+        for st in ast.walk(node):
+            if st is node:
+                continue
+            if isinstance(st, ast.If):
+                for x in ast.walk(st):
+                    if isinstance(x, ast.Call) and isinstance(x.func, ast.Attribute) and (
+                            x.func.attr in ('add_node', 'add_edge', 'append', 'add') or x.func.attr.startswith('_add_')
+                            or x.func.attr.startswith('_set_visited')):
+                        conditional.append(x)
+                    if isinstance(x, ast.Call) and isinstance(x.func, ast.Name) and 'visited' in x.func.id and x in ast.walk(st.test):
+                        pass
+        cons = f'{trav.module.name}::{trav.qualname}::{name} branch: graph and registry updates are unconditional'
+        if not conditional:
+            out.ok('BD-7', cons, ctx.p.loc(trav, node), 'no graph / registry update under an if')
+        else:
+            out.bad('BD-7', cons, ctx.p.loc(trav, conditional[0]),
+                    f'in the {name} branch {unparse(conditional[0])[:70]} is executed only conditionally: whether the declaration is fully '
+                    f'translated / validated depends on traversal order or on what was visited before', props={'C15', 'C16', 'C11'})
 
 
 def rule_node_map_and_validation(ctx: Ctx, out: Collector) -> None:
